@@ -265,6 +265,48 @@ class SeveralSearchers(object):
                 shutil.rmtree(d, ignore_errors=True)
 
 
+class StubNames(object):
+    name = 'stub-lists-and-name-fragments'
+    describe = ('the real StubSearcher over the stub list of the pysnmp code generator and over short lists: asked for every listed '
+                'name, for fragments of listed names (ADDRESS-MIB, SNMPv2, TC, MIB, a name plus a letter), for other case spellings '
+                'and for the empty name, with and without rebuild: up to date exactly for the listed names')
+
+    def blocks(self, tier):
+        return [{}]
+
+    def cases(self, block, tier):
+        for lst in (0, 1, 2):
+            yield {'list': lst}
+
+    def run_case(self, case):
+        from pysmi.searcher.stub import StubSearcher
+        from pysmi.codegen.pysnmp import PySnmpCodeGen
+        names = [list(PySnmpCodeGen.baseMibs), ['SNMPv2-SMI', 'INET-ADDRESS-MIB'], ['FOO-MIB']][case['list']]
+        s = StubSearcher(*names)
+        probes = set(names)
+        for n in names:
+            for i in range(1, len(n)):
+                probes.add(n[i:])
+                probes.add(n[:i])
+            probes.update([n + 'X', 'X' + n, n.lower(), n.title(), n + ', ', ', ' + n])
+        probes.update(['', ',', ', ', 'MIB', 'SNMPv2', 'TC'])
+        vs = []
+        nasked = 0
+        for p_ in sorted(probes):
+            for rebuild in (False, True):
+                got = ask(s, p_, rebuild)
+                nasked += 1
+                want = 'not-modified' if p_ in names else 'not-found'
+                if got != want:
+                    vs.append(('C10|stub-names|answered-%s-where-%s|%s' % (got, want, 'rebuild' if rebuild else 'plain'),
+                               'stub list %r asked for %r' % (names[:6], p_)))
+                    break
+        dedup = {}
+        for sig, d in vs:
+            dedup.setdefault(sig, d)
+        return 'ok' if not vs else 'bad', list(dedup.items()), nasked
+
+
 class ReaderToSearcher(object):
     name = 'reader-to-searcher'
     describe = ('the modification time the REAL FileReader reports for a source file handed to the real PyFileSearcher / '
@@ -471,4 +513,4 @@ class SearcherHistories(object):
                 importlib.invalidate_caches()
             shutil.rmtree(root, ignore_errors=True)
 
-FAMILIES = [SearcherLists(), FileSearchers(), SeveralSearchers(), ReaderToSearcher(), NoDepsFileNames(), SearcherHistories()]
+FAMILIES = [SearcherLists(), FileSearchers(), SeveralSearchers(), StubNames(), ReaderToSearcher(), NoDepsFileNames(), SearcherHistories()]
